@@ -24,7 +24,7 @@ type Part struct {
 	Enc     string `json:"enc,omitempty"`     // "", "qp", "b64", "8bit" ("" = message encoding)
 	Desc    string `json:"desc,omitempty"`    // WithPartContentDescription
 	Charset string `json:"charset,omitempty"` // WithPartCharset
-	Via     string `json:"via,omitempty"`     // "" = *Writer API, "string" = SetBodyString / AddAlternativeString, "tpl" = SetBody*Template / AddAlternative*Template (text/template for text/plain, html/template for text/html; the template is "{{.}}" and the data is the content)
+	Via     string `json:"via,omitempty"`     // "" = *Writer API, "string" = SetBodyString / AddAlternativeString, "setcontent" = created with a placeholder, then Part.SetContent; "tpl" = SetBody*Template / AddAlternative*Template (text/template for text/plain, html/template for text/html; the template is "{{.}}" and the data is the content)
 	Deleted bool   `json:"deleted,omitempty"` // Part.Delete() is called after the part was added
 }
 
@@ -59,7 +59,7 @@ type Msg struct {
 	GenEmpty []string    `json:"genempty,omitempty"` // SetGenHeader(name) with no values
 	Preform  [][2]string `json:"preform,omitempty"`  // SetGenHeaderPreformatted
 	ToIgnore []string    `json:"toignore,omitempty"` // ToIgnoreInvalid(list)
-	SMIME    int         `json:"smime,omitempty"`    // 0 none, 1 RSA, 2 ECDSA
+	SMIME    int         `json:"smime,omitempty"`    // 0 none, 1 RSA, 2 ECDSA P-256, 3 ECDSA P-384, 4 ECDSA P-521
 	Inter    bool        `json:"inter,omitempty"`    // with intermediate certificate
 	// SignAPI: 0 SignWithKeypair; 1..3 SignWithTLSCertificate with a chain of that many certificates (leaf; leaf +
 	// intermediate; leaf + intermediate + root) — Inter must be set for 2 and 3; 4 = chain of three with Leaf unset
@@ -221,6 +221,16 @@ func Build(s Msg, h *Hooks) (*mail.Msg, error) {
 			} else {
 				note(m.AddAlternativeTextTemplate(tpl, string(p.Content), po...))
 			}
+		case p.Via == "setcontent":
+			// the part is created with a placeholder and its content replaced through Part.SetContent afterwards
+			if i == 0 {
+				m.SetBodyString(ctOf(p.Type), "placeholder that is replaced", po...)
+			} else {
+				m.AddAlternativeString(ctOf(p.Type), "placeholder that is replaced", po...)
+			}
+			if ps := m.GetParts(); len(ps) > 0 {
+				ps[len(ps)-1].SetContent(string(p.Content))
+			}
 		case p.Via == "string" && i == 0:
 			m.SetBodyString(ctOf(p.Type), string(p.Content), po...)
 		case p.Via == "string":
@@ -341,8 +351,13 @@ func Build(s Msg, h *Hooks) (*mail.Msg, error) {
 	if s.SMIME != 0 {
 		mat := hx.Mat()
 		kp := mat.SignRSA
-		if s.SMIME == 2 {
+		switch s.SMIME {
+		case 2:
 			kp = mat.SignECDSA
+		case 3:
+			kp = mat.SignP384
+		case 4:
+			kp = mat.SignP521
 		}
 		inter := mat.InterCert
 		if !s.Inter {
